@@ -223,10 +223,7 @@ func (w *world) check() {
 	}
 	for id, e := range got {
 		t, ok := want[id]
-		if err := subs.VerifySiacoin(tipState, e); err != nil && ok {
-			w.report("c06-utxo-proof-invalid", "at tip %d the Merkle proof stored for output %v (leaf %d) does not verify against the tip's accumulator: %v", tipN.Idx, id, e.StateElement.LeafIndex, err)
-			continue
-		}
+		perr := subs.VerifySiacoin(tipState, e)
 		if ok && !linearState {
 			t.StateElement = e.StateElement.Copy()
 		}
@@ -237,6 +234,8 @@ func (w *world) check() {
 			w.report("c06-utxo-value-differs", "at tip %d output %v is stored as %v, the chain has %v", tipN.Idx, id, e.SiacoinOutput, t.SiacoinOutput)
 		case e.MaturityHeight != t.MaturityHeight:
 			w.report("c06-utxo-maturity-differs", "at tip %d output %v is stored with maturity height %d, the chain has %d", tipN.Idx, id, e.MaturityHeight, t.MaturityHeight)
+		case perr != nil:
+			w.report("c06-utxo-proof-invalid", "at tip %d the Merkle proof stored for output %v (leaf %d) does not verify against the tip's accumulator: %v", tipN.Idx, id, e.StateElement.LeafIndex, perr)
 		case e.StateElement.LeafIndex != t.StateElement.LeafIndex:
 			w.report("c06-utxo-leaf-differs", "at tip %d output %v is stored with leaf index %d, the chain has %d", tipN.Idx, id, e.StateElement.LeafIndex, t.StateElement.LeafIndex)
 		case fmt.Sprint(e.StateElement.MerkleProof) != fmt.Sprint(t.StateElement.MerkleProof):
@@ -494,6 +493,7 @@ func run(c *hx.Ctx) {
 	res.Shard = 40
 	res.Rule = "fork trees of real mined blocks (6 regimes) in which the wallet address is miner (1 in 3 blocks), payee, spender, v1/v2 contract party (valid, missed, renewed - incl. renewals whose final outputs pay other addresses -, expired), siafund owner, claimant for another owner's siafunds, and (via the claim/foundation outputs) recipient; mgrsim submission plans interleaved with chunks of the update stream (max 1,2,3,7,1000; chunks ending on a revert; chunks short of the tip); non-trivial := the wallet reverted at least one block and the best chain carried at least 3 event kinds; distinct by (tree seed, events)"
 	var cases []string
+	failed := map[string]int{}
 	doCase := func(cs Case, t *chaingen.Tree) {
 		w := runCase(cs, t)
 		js, _ := json.Marshal(cs)
@@ -516,7 +516,11 @@ func run(c *hx.Ctx) {
 			}
 		}
 		if w.fail != nil {
-			small := shrink(cs, t, w.fail.kind)
+			small := cs
+			if failed[w.fail.kind] < 3 { // only the first replays of a kind are kept: shrink those
+				small = shrink(cs, t, w.fail.kind)
+			}
+			failed[w.fail.kind]++
 			w2 := runCase(small, t)
 			f := w2.fail
 			if f == nil {
